@@ -47,11 +47,69 @@ func (e *fnEnc) guardedBy(g *ssa.Global) *Monitor {
 
 func heldComp(m *Monitor) string { return "Ghost.held." + m.Mutex }
 
+// fieldMonitor: the address of a mutex field "(*T).f" named by a monitor.
+func (e *fnEnc) fieldMonitor(fa *ssa.FieldAddr) (*Monitor, bool) {
+	st := ptrElem(fa.X.Type())
+	n, ok := types.Unalias(st).(*types.Named)
+	if !ok || n.Obj().Pkg() == nil {
+		return nil, false
+	}
+	fname := n.Underlying().(*types.Struct).Field(fa.Field).Name()
+	want := "(*" + n.Obj().Name() + ")." + fname
+	for _, m := range e.eng.monitors[n.Obj().Pkg().Path()] {
+		if m.Mutex == want {
+			return m, true
+		}
+	}
+	return nil, false
+}
+
+// guardedField: a field named in the guards of a "(*T).f" monitor.
+func (e *fnEnc) guardedField(fa *ssa.FieldAddr) *Monitor {
+	st := ptrElem(fa.X.Type())
+	n, ok := types.Unalias(st).(*types.Named)
+	if !ok || n.Obj().Pkg() == nil {
+		return nil
+	}
+	fname := n.Underlying().(*types.Struct).Field(fa.Field).Name()
+	for _, m := range e.eng.monitors[n.Obj().Pkg().Path()] {
+		if !strings.HasPrefix(m.Mutex, "(*"+n.Obj().Name()+").") {
+			continue
+		}
+		for _, g := range m.Guards {
+			if g == fname {
+				return m
+			}
+		}
+	}
+	return nil
+}
+
 func (e *fnEnc) held(st *state, m *Monitor) Term {
 	if t, ok := st.m[heldComp(m)]; ok {
 		return t
 	}
+	// at entry the lock is not held, unless the contract says `requires_lock <mutex>`
+	for _, cl := range e.ctr.Get("requires_lock") {
+		if strings.Fields(cl.Text)[0] == m.Mutex {
+			return intLit(2)
+		}
+	}
 	return intLit(0)
+}
+
+// lockPreconditions: obligations at a call whose callee declares `requires_lock`.
+func (e *fnEnc) lockPreconditions(c *blockCtx, in ssa.Instruction, name string, ctr *FuncContract) {
+	for _, cl := range ctr.Get("requires_lock") {
+		mname := strings.Fields(cl.Text)[0]
+		for _, ms := range e.eng.monitors {
+			for _, m := range ms {
+				if m.Mutex == mname {
+					e.obligation("guarded", fmt.Sprintf("call %s#%d:%s", shortCallee(name), e.callOrdinal(in, name), mname), c.reach, eq(e.held(c.st, m), intLit(2)), "callee requires the lock "+mname, e.posOf(in), false)
+				}
+			}
+		}
+	}
 }
 
 // lockCall recognises sync lock operations on a monitor mutex. It returns true
@@ -73,15 +131,28 @@ func (e *fnEnc) lockCall(c *blockCtx, in ssa.Instruction, name string, cc *ssa.C
 	if len(cc.Args) == 0 {
 		return false
 	}
-	g, ok := cc.Args[0].(*ssa.Global)
-	if !ok {
+	var m *Monitor
+	var pkg string
+	var self Term
+	var selfType types.Type
+	switch a := cc.Args[0].(type) {
+	case *ssa.Global:
+		mm, ok := e.monitorFor(a)
+		if !ok {
+			return false
+		}
+		m, pkg = mm, a.Pkg.Pkg.Path()
+	case *ssa.FieldAddr:
+		mm, ok := e.fieldMonitor(a)
+		if !ok {
+			return false
+		}
+		m, pkg = mm, mm.Pkg
+		self = e.val(a.X)
+		selfType = a.X.Type()
+	default:
 		return false
 	}
-	m, ok := e.monitorFor(g)
-	if !ok {
-		return false
-	}
-	pkg := g.Pkg.Pkg.Path()
 	ord := e.callOrdinal(in, name)
 	switch op {
 	case "lock", "rlock":
@@ -89,9 +160,16 @@ func (e *fnEnc) lockCall(c *blockCtx, in ssa.Instruction, name string, cc *ssa.C
 		before := c.st.clone()
 		// forget the guarded state
 		for _, gn := range m.Guards {
+			if selfType != nil {
+				e.havocLocation(c.st, &ESel{X: &EIdent{Name: "self"}, Name: gn}, &specEnv{enc: e, vars: map[string]SVal{"self": {t: self, typ: selfType}}, st: c.st, old: c.st, pkg: pkg})
+				continue
+			}
 			e.havocGuarded(c.st, pkg, gn)
 		}
 		env := &specEnv{enc: e, vars: map[string]SVal{}, st: c.st, old: before, pkg: pkg}
+		if selfType != nil {
+			env.vars["self"] = SVal{t: self, typ: selfType}
+		}
 		e.assert(imp(c.reach, e.evalBool(m.Inv, env)))
 		if m.Rely != nil {
 			e.assert(imp(c.reach, e.evalBool(m.Rely, env)))
@@ -114,6 +192,9 @@ func (e *fnEnc) lockCall(c *blockCtx, in ssa.Instruction, name string, cc *ssa.C
 			acq = e.entrySt
 		}
 		env := &specEnv{enc: e, vars: map[string]SVal{}, st: c.st, old: acq, pkg: pkg}
+		if selfType != nil {
+			env.vars["self"] = SVal{t: self, typ: selfType}
+		}
 		e.obligation("monitor", fmt.Sprintf("%s:release#%d:invariant", m.Mutex, ord), c.reach, e.evalBool(m.Inv, env), m.InvTxt, e.posOf(in), false)
 		if m.Rely != nil {
 			e.obligation("monitor", fmt.Sprintf("%s:release#%d:guarantee", m.Mutex, ord), c.reach, e.evalBool(m.Rely, env), m.RelyTxt, e.posOf(in), false)
@@ -157,6 +238,17 @@ func (e *fnEnc) havocGuarded(st *state, pkg, name string) {
 // guardedAccess emits the lock-held obligation for an access to a guarded global
 // (or to the container loaded from it).
 func (e *fnEnc) guardedAccess(c *blockCtx, in ssa.Instruction, v ssa.Value, write bool) {
+	if fm, fname := e.fieldGuardRoot(v); fm != nil {
+		need := le(intLit(1), e.held(c.st, fm))
+		what := "read"
+		if write {
+			need = eq(e.held(c.st, fm), intLit(2))
+			what = "write"
+		}
+		e.fieldGuardCount[fname+what]++
+		e.obligation("guarded", fmt.Sprintf("%s:%s#%d", fname, what, e.fieldGuardCount[fname+what]-1), c.reach, need, fmt.Sprintf("%s of %s requires %s", what, fname, fm.Mutex), e.posOf(in), false)
+		return
+	}
 	g, m := e.guardRoot(v)
 	if m == nil {
 		return
@@ -215,3 +307,26 @@ func (e *fnEnc) guardOrdinal(in ssa.Instruction, g *ssa.Global) int {
 }
 
 var _ = strings.TrimSpace
+
+// fieldGuardRoot follows a value back to a guarded struct field.
+func (e *fnEnc) fieldGuardRoot(v ssa.Value) (*Monitor, string) {
+	for i := 0; i < 8; i++ {
+		switch x := v.(type) {
+		case *ssa.FieldAddr:
+			if m := e.guardedField(x); m != nil {
+				st := types.Unalias(ptrElem(x.X.Type())).Underlying().(*types.Struct)
+				return m, st.Field(x.Field).Name()
+			}
+			v = x.X
+		case *ssa.UnOp:
+			v = x.X
+		case *ssa.Slice:
+			v = x.X
+		case *ssa.IndexAddr:
+			v = x.X
+		default:
+			return nil, ""
+		}
+	}
+	return nil, ""
+}
